@@ -222,26 +222,42 @@ def run(ctx):
         ctx.extra["nontrivial_scripts"] = sum(1 for s in scripts if nontrivial(s))
         ctx.distinct = set(j[-1] for j in jobs if j[0] == "random" or nontrivial(j[0]))
     # ---- run the real code
+    rejects = []       # (trace, line, clause) of rejected histories
+    ntraces = nevents = 0
+    first = []
     if len(jobs) + len(probe_jobs) <= 2:
         traces = [c11_versioned.run_job(j) for j in jobs]
         ptraces = [c11_versioned.run_job(j) for j in probe_jobs]
+        ntraces, nevents, first = len(traces), sum(len(tr["ev"]) for tr in traces), traces[:2]
+        rejects = ctx.validate("Trace_VersionedZone", "Trace_VersionedZone.cfg", traces) if traces else []
     else:
-        # one pool: the (few, long) immutability examinations start first, one per task, and
-        # run alongside the (many, short) histories
+        # one pool: the (few, long) immutability examinations start first, one per task, and run
+        # alongside the (many, short) histories.  Histories are replayed AND validated in batches so
+        # that the recorded traces of the thorough tier (~ 10^7 events) never sit in memory at once
+        # (an unbatched thorough run was OOM-killed at 18 GB).
         import multiprocessing as mp
+        BATCH = 60000
         with mp.get_context("fork").Pool(16) as pool:
             pending = pool.map_async(c11_versioned.run_job, probe_jobs, chunksize=1)
-            traces = pool.map(c11_versioned.run_job, jobs, chunksize=max(1, len(jobs) // 256)) if jobs else []
+            for k in range(0, len(jobs), BATCH):
+                part = jobs[k:k + BATCH]
+                traces = pool.map(c11_versioned.run_job, part, chunksize=max(1, len(part) // 256))
+                ntraces += len(traces)
+                nevents += sum(len(tr["ev"]) for tr in traces)
+                if not first:
+                    first = traces[:2]
+                rejects += ctx.validate("Trace_VersionedZone", "Trace_VersionedZone.cfg", traces)
+                del traces
             ptraces = pending.get()
     for tr in ptraces:
         tr["part"] = "probe"
-    ctx.log("replayed %d histories, %d immutability examinations" % (len(traces), len(ptraces)))
-    for tr in traces[:2]:
+    ctx.log("replayed and validated %d histories (%d rejected); %d immutability examinations" % (ntraces, len(rejects), len(ptraces)))
+    for tr in first:
         ctx.sample({"tid": tr["tid"], "ev": tr["ev"][:3]})
     for tr in ptraces[:1]:
         ctx.sample({"tid": tr["tid"], "ev": [e for e in tr["ev"] if e["op"] == "call"][:4]})
     ncalls = sum(1 for tr in ptraces for e in tr["ev"] if e.get("op") == "call")
-    ctx.extra["history_events"] = sum(len(tr["ev"]) for tr in traces)
+    ctx.extra["history_events"] = nevents
     ctx.extra["mutator_calls_witnessed"] = ncalls
     ctx.extra["objects_examined"] = sum(1 for tr in ptraces for e in tr["ev"] if e.get("op") == "obj")
     ctx.extra["noop_variant_calls"] = sum(1 for tr in ptraces for e in tr["ev"] if e.get("op") == "noop")
@@ -253,9 +269,8 @@ def run(ctx):
                 silent[k] = silent.get(k, 0) + 1
     # not hidden: every mutator call with no-op arguments that returned instead of raising
     ctx.extra["noop_calls_that_returned_silently"] = silent
-    ctx.evaluations = len(traces) + ncalls
+    ctx.evaluations = ntraces + ncalls
     # ---- judge
-    rejects = ctx.validate("Trace_VersionedZone", "Trace_VersionedZone.cfg", traces) if traces else []
     prejects = ctx.validate("Trace_ValueObjectVZ", "Trace_ValueObjectVZ.cfg", ptraces) if ptraces else []
     for tr, line, clause in rejects:
         sig = classify(tr, line, clause)
